@@ -1,5 +1,5 @@
 (* Extraction of the language layer (reference semantics; engine models are added as they land). *)
 Require Extraction.
 Require Import ExtrOcamlBasic.
-From NV Require Import Lang.Ast Lang.Ref Back.VmCompile Back.VmExec Back.NatSem Back.NanoCoreBridge.
-Extraction "../build/extract/ex_lang.ml" run_ref print_Z compile_program run_vm run_nat nanocore_eval_v exact_eval.
+From NV Require Import Lang.Ast Lang.Ref Back.VmCompile Back.VmExec Back.NatSem Back.NanoCoreBridge Back.NatOrder.
+Extraction "../build/extract/ex_lang.ml" run_ref print_Z compile_program run_vm run_nat nanocore_eval_v exact_eval se_program.
